@@ -49,7 +49,9 @@ def gates_patch(s):
     return p
 
 
-def count_steps(st, data, ctx):
+def count_steps(st, data, ctx, rec=None):
+    """first (cold) evaluation of the statement in this process: counted, and recorded for the ownership discipline -
+    lazily initialised state on shared definitions would be written exactly here"""
     c = [0]
 
     class S(object):
@@ -57,10 +59,17 @@ def count_steps(st, data, ctx):
             c[0] += 1
     p = gates_patch(S())
     try:
+        child = ctx.create_child_context()
+        if rec is not None:
+            rec.new_trace()
+            rec.begin(1, child)
         try:
-            st.evaluate(data=copy.deepcopy(data), context=ctx.create_child_context())
+            st.evaluate(data=copy.deepcopy(data), context=child)
         except Exception:
             pass
+        finally:
+            if rec is not None:
+                rec.end(1)
     finally:
         p.__exit__()
     return c[0]
@@ -129,11 +138,19 @@ def run(rep, tier, seed, keep=False):
         def baseline(i, d):
             k = (i, repr(d))
             if k not in base:
-                base[k] = outcome(lambda: stmts[i].evaluate(data=copy.deepcopy(d), context=shared.create_child_context()))
+                # "alone": a freshly parsed statement in a freshly prepared context of its own, nothing shared with the runs under test
+                alone = yaql.create_context()
+                alone['cfg'] = {'k': [1, 2, 3]}
+                alone = alone.create_child_context()
+                alone['lim'] = 2
+                base[k] = outcome(lambda: yaql.YaqlFactory().create()(POOL[i]).evaluate(data=copy.deepcopy(d), context=alone.create_child_context()))
             return base[k]
-        steps = [count_steps(st, DATAS[0], shared) for st in stmts]
-        rep.extra['steps_per_statement'] = dict(zip([p[:30] for p in POOL[:8]], steps[:8]))
+        for i in range(len(POOL)):
+            for d in DATAS:
+                baseline(i, d)
         rec.install()
+        steps = [count_steps(st, DATAS[0], shared, rec) for st in stmts]
+        rep.extra['steps_per_statement'] = dict(zip([p[:30] for p in POOL[:8]], steps[:8]))
         nrun = 0
         nswitch = 0
 
